@@ -30,6 +30,50 @@ ASSUMPTIONS = [
 ]
 
 
+MUTANTS = [
+    ("key never written", "AegeanTools/fits_tools.py",
+     "    header['BN_RPX2'] = (lcy, 'Residual on axis 2')\n", "", "C15-R1"),
+    ("truthiness test", "AegeanTools/fits_tools.py",
+     "    return all(a in header for a in",
+     "    return all(header.get(a) for a in", "C15-R1"),
+    ("key left behind", "AegeanTools/fits_tools.py",
+     "    del header['BN_RPX1'], header['BN_RPX2']\n",
+     "    del header['BN_RPX1']\n", "C15-R1"),
+    ("crpix not inverted", "AegeanTools/fits_tools.py",
+     "    header['CRPIX1'] = (header['CRPIX1'] - 1) * factor + 1",
+     "    header['CRPIX1'] = header['CRPIX1'] * factor", "C15-R2"),
+    ("cdelt scaled twice", "AegeanTools/fits_tools.py",
+     "    if 'CDELT2' in header:\n        header['CDELT2'] /= factor",
+     "    if 'CDELT2' in header:\n        header['CDELT2'] *= factor",
+     "C15-R2"),
+    ("stride differs from stored factor", "AegeanTools/fits_tools.py",
+     "    new_data[:nx, :ny] = data[::factor, ::factor]",
+     "    new_data[:nx, :ny] = data[::factor, ::factor+1]", "C15-R3"),
+    ("original size from wrong axis", "AegeanTools/fits_tools.py",
+     "    header['BN_NPX2'] = (header['NAXIS2'], 'original NAXIS2 value')",
+     "    header['BN_NPX2'] = (header['NAXIS1'], 'original NAXIS2 value')",
+     "C15-R3"),
+    ("grid axes swapped", "AegeanTools/fits_tools.py",
+     "(gx, gy) = np.mgrid[0:header['BN_NPX2'], 0:header['BN_NPX1']]",
+     "(gx, gy) = np.mgrid[0:header['BN_NPX1'], 0:header['BN_NPX2']]",
+     "C15-R3"),
+    ("node spacing off by one", "AegeanTools/fits_tools.py",
+     "    rows = (np.arange(data.shape[0]) + int(lcx/factor))*factor",
+     "    rows = (np.arange(data.shape[0]) + 1)*factor", "C15-R3"),
+    ("slice before expanding", "AegeanTools/fits_tools.py",
+     "    if compressed:\n        hdulist = expand(filename)\n        header "
+     "= hdulist[0].header\n",
+     "    if compressed and band[1] > 1:\n        hdulist = expand(filename)"
+     "\n        header = hdulist[0].header\n", "C15-R4"),
+]
+TWINS = [
+    ("crpix rewritten", "AegeanTools/fits_tools.py",
+     "    header['CRPIX1'] = (header['CRPIX1'] - 1) * factor + 1",
+     "    header['CRPIX1'] = header['CRPIX1'] * factor - factor + 1"),
+]
+
+
+
 def header_stores(fnode):
     """{key: [stmt]} for header['KEY'] = / op= ..."""
     out = {}
